@@ -169,11 +169,28 @@ def oracle_expand(ds):
     return out
 
 
+def snapshot(ds):
+    return {str(v): ds[v].values.copy() for v in ds.variables}
+
+
+def unchanged(rec, ds, before, case, what):
+    for v, arr in before.items():
+        now = ds[v].values if v in ds.variables else None
+        ok = now is not None and now.shape == arr.shape and (
+            np.array_equal(now, arr, equal_nan=True) if arr.dtype.kind in "fc" else np.array_equal(now, arr))
+        if not ok:
+            rec.violation("input-mutated", case, {"by": what, "variable": v})
+            return False
+    rec.count("inputs_unchanged." + what)
+    return True
+
+
 def check_expand(rec, ds, case, expanded=None):
     from typhon.collocations import expand
     rec.ev()
     rec.count("expand.calls")
     want = oracle_expand(ds)
+    before = snapshot(ds) if expanded is None else None
     n = ds["Collocations/pairs"].shape[1]
     try:
         ex = expand(ds) if expanded is None else expanded
@@ -181,6 +198,8 @@ def check_expand(rec, ds, case, expanded=None):
         rec.violation("expand-exception", case, {"exception": repr(exc),
                                                  "trace": traceback.format_exc()[-1200:]})
         return None
+    if before is not None and not unchanged(rec, ds, before, case, "expand"):
+        return ex
     if ex.sizes.get("collocation") != n:
         rec.violation("expand-wrong", case, {"why": "not one row per pair",
                                              "rows": ex.sizes.get("collocation"), "pairs": int(n)})
@@ -222,10 +241,13 @@ def check_collapse(rec, ds, case, reference=None, collapser_name=None):
         # a user function under a default name replaces that default - for this call only
         custom = {"mean": lambda m, a: np.nanmedian(m, axis=a)}
     sub = dict(case, reference=reference, collapser=collapser_name)
+    before = snapshot(ds)
     try:
         with warnings.catch_warnings():
             warnings.simplefilter("ignore")
             col = collapse(ds, reference=reference, collapser=custom)
+        if not unchanged(rec, ds, before, sub, "collapse"):
+            return
     except Exception as exc:
         rec.violation("collapse-exception", sub, {"exception": repr(exc),
                                                   "trace": traceback.format_exc()[-1200:]})
